@@ -173,7 +173,7 @@ def run_pair(spec, opts, stdin, texts, pipe_cfg, res, order=None):
     def body(me, my_argv, fin, fout):
         def run(ctx):
             S.begin_op(ctx, 'main')
-            local.argv = ['penman'] + my_argv
+            local.argv = ['penman'] + [fs.real(a_) if isinstance(a_, str) and a_.startswith('/sim/') else a_ for a_ in my_argv]
             local.stdin, local.stdout, local.stderr = fin, fout, io.StringIO()
             try:
                 try:
